@@ -48,7 +48,8 @@ def plan(tier):
 def floors(tier):
     return {"nontrivial": 8, "counter:gridded_configurations": 2, "counter:raw_configurations": 6, "counter:cells_judged": 80, "counter:runs": 200000, "counter:events_simulated": 1000000,
             "class:first-step": 2, "class:chain": 2, "class:immigration-death": 2, "class:sir-final-size": 2,
-            "class:int-number-types": 4, "class:float-number-types": 4, "counter:permuted_twin_first": 4}   # (the optional parallel lane has no floors of its own)
+            "class:int-number-types": 4, "class:float-number-types": 4, "counter:permuted_twin_first": 4,
+            "counter:refused_initial_assignments": 4}   # (the optional parallel lane has no floors of its own)
 
 
 def region(n, p, alpha=ALPHA_CELL):
@@ -182,6 +183,10 @@ def run_case(rng, idx, tier, lane, ctx):
             counters["permuted_twin_first"] = 1
             cfg["permuted_twin_simulated_first"] = {"states": tw["states"], "params": tw["params"]}
         m = S.build_sim(spec, theta, x0)
+        if (idx // 2) % 2 == 1:
+            # a (rightly) refused assignment of initial values before the runs: the model keeps the initial state and time it had
+            import random as _random
+            cfg["refused_initial_assignment_first"] = S.refused_initial_assignment(_random.Random(seed), m, x0, 0.0, counters)
         np.random.seed(seed)
         with contextlib.redirect_stdout(io.StringIO()):
             if gridded:
